@@ -313,18 +313,50 @@ package proxy
 //@   loop 1 decreases pEnd - p + 1
 //@   check overflow
 
-//@ unit health_check_interval props=C11 filter=`proxy\.staticUpstream\)\.HealthCheckWorker$|proxy\.parseBlock$`
+//@ unit health_check_interval frames=on props=C11 dispenser_variants=on filter=`proxy\.staticUpstream\)\.HealthCheckWorker$|proxy\.parseBlock$`
 //@ // The health-check worker started by the proxy setup hands the configured interval to time.NewTicker, which panics on a
-//@ // non-positive one (in a goroutine nobody recovers: the process dies after a load that reported success). The interval is
-//@ // positive when the block starts (30s default) and every accepted sub-directive keeps it positive.
+//@ // non-positive one (in a goroutine nobody recovers: the process dies after a load that reported success). Invariant of
+//@ // an upstream under construction: the interval is never negative, and positive once a health-check path is set (the
+//@ // worker is only started then); every accepted sub-directive keeps it.
+//@ define hcOK(u *staticUpstream) bool = u.HealthCheck.Interval >= 0 && (u.HealthCheck.Path != "" ==> u.HealthCheck.Interval > 0)
 //@ use @verif/specs/stdlib.spec:time_sinks
 //@ use casketfile/contracts_verif.go:dispenser_api
 //@ func (*staticUpstream).healthCheck
 //@ func (*staticUpstream).HealthCheckWorker
 //@   requires u != nil && u.HealthCheck.Interval > 0
 //@ func parseBlock
-//@   requires c != nil && u != nil && u.HealthCheck.Interval > 0
-//@   ensures [interval_stays_positive] result == nil ==> u.HealthCheck.Interval > 0
+//@   requires c != nil && u != nil && hcOK(u)
+//@   modifies Dispenser.cursor, staticUpstream
+//@   ensures [interval_stays_positive] result == nil ==> hcOK(u)
+//@   ensures [cursor_monotone] c.cursor >= old(c.cursor)
+
+//@ unit upstream_constructor props=C04,C11 dispenser_variants=on nilchecks=on filter=`proxy\.NewStaticUpstreams$|proxy\.NewStaticUpstreams\$1$`
+//@ // The constructor of a proxy block. C11: safety and termination for every token sequence. C04 ("exactly the configured
+//@ // `without` prefix / options"): NewHost copies the block's scalar options into each backend when it is created, so
+//@ // every backend is created AFTER the last option of its block was parsed (optionsParsed counts parseBlock calls;
+//@ // createdAt(host) is its value when the host was created). C11 again: the health-check worker is started only with a
+//@ // positive interval.
+//@ use casketfile/contracts_verif.go:dispenser_api
+//@ use @verif/specs/stdlib.spec:stdlib
+//@ use caskethttp/proxy/contracts_verif.go:health_check_interval
+//@ use caskethttp/proxy/contracts_verif.go:upstream_ports
+//@ ghost optionsParsed int
+//@ ghostfn createdAt
+//@ func (*staticUpstream).NewHost
+//@   requires u != nil
+//@   ensures result1 == nil ==> result0 != nil
+//@ extern (net/http.Header).Get
+//@   pure
+//@ func NewStaticUpstreams$1
+//@   requires upstream != nil && upstream.HealthCheck.Interval > 0
+//@ func NewStaticUpstreams
+//@   requires optionsParsed == 0
+//@   at call parseBlock do optionsParsed = optionsParsed + 1
+//@   at call (*staticUpstream).NewHost do createdAt(result0) = optionsParsed
+//@   at call builtin:append#4 assert [backends_created_after_all_options] forall(k, 0, len(upstream.Hosts), createdAt(upstream.Hosts[k]) == optionsParsed)
+//@   loop 2 invariant upstream != nil && hcOK(upstream)
+//@   loop 3 invariant upstream != nil && hcOK(upstream)
+//@   loop 4 invariant 0 <= #i && #i <= len(to) && len(upstream.Hosts) == len(to) && upstream != nil && hcOK(upstream) && forall(k, 0, #i, createdAt(upstream.Hosts[k]) == optionsParsed)
 
 //@ unit setup_sweep props=C11 files=setup.go,upstream.go nilchecks=on nonnil_params=on dispenser_variants=on exclude=`staticUpstream\)\.(HealthCheckWorker|NewHost|Select|healthCheck|healthCheck\$1|resolveHost)$|headerReplacements\)\.Add$|proxy\.(NewStaticUpstreams|RegisterPolicy|parseUpstream|replacePort)$` filter=`.`
 //@ // Safety sweep of this directive's setup code: index, slice, division, nil-map store, nil dereference, explicit panic,
